@@ -97,8 +97,12 @@ def run(obs, scratch, scratch_repo, log, seed=0):
     env["CARGO_NET_OFFLINE"] = "true"
     env.pop("RUSTUP_TOOLCHAIN", None)
     try:
-        keys = sorted(groups)
-        for gi, key in enumerate(keys):
+        keys = sorted(groups, key=lambda k: -len(groups[k]))
+        # crate groups are independent cargo invocations: run up to two at a time
+        par = 2 if len(keys) > 1 else 1
+        jobs_each = JOBS if par == 1 else max(4, (JOBS * 5) // 8)
+
+        def one(key):
             crate, checks = key
             g = groups[key]
             if seed:
@@ -109,9 +113,10 @@ def run(obs, scratch, scratch_repo, log, seed=0):
             if os.path.exists(json_out):
                 os.remove(json_out)
             crate_dir = os.path.join(scratch_repo, crate)
-            cmd = kani_cmd(crate_dir, [o.fqn for o in g], checks, timeout, json_out, min(JOBS, len(g)))
+            nj = min(jobs_each, len(g))
+            cmd = kani_cmd(crate_dir, [o.fqn for o in g], checks, timeout, json_out, nj)
             t0 = time.time()
-            overall = timeout * (1 + len(g) // JOBS) + 900
+            overall = timeout * (1 + len(g) // max(nj, 1)) + 900
             try:
                 p = subprocess.run(cmd, cwd=crate_dir, env=env, capture_output=True, text=True, timeout=overall)
                 out = p.stdout + "\n" + p.stderr
@@ -120,12 +125,17 @@ def run(obs, scratch, scratch_repo, log, seed=0):
                 out = (e.stdout or b"").decode("utf8", "replace") if isinstance(e.stdout, bytes) else (e.stdout or "")
                 out += "\n[driver] overall timeout %ds" % overall
                 rc = -1
-                subprocess.run(["pkill", "-x", "cbmc"])
             dt = time.time() - t0
-            log.append("kani %s [%s]: %d harnesses, rc=%s, %.1fs" % (crate, checks, len(g), rc, dt))
             with open(os.path.join(scratch, "kani-%s-%s.log" % (crate, checks)), "w") as fh:
                 fh.write(" ".join(cmd) + "\n" + out)
-            results += classify(g, json_out, out, rc, " ".join(cmd), dt)
+            return ("kani %s [%s]: %d harnesses, rc=%s, %.1fs" % (crate, checks, len(g), rc, dt),
+                    classify(g, json_out, out, rc, " ".join(cmd), dt))
+
+        from concurrent.futures import ThreadPoolExecutor
+        with ThreadPoolExecutor(max_workers=par) as ex:
+            for line, res in ex.map(one, keys):
+                log.append(line)
+                results += res
     finally:
         stop.set()
     if killed:
